@@ -331,3 +331,16 @@ def big_classic(n_jobs, n_machines, name="big"):
         "ints": True,
         "family": "fixed_big",
     }
+
+
+def many_ready(n_jobs, n_machines, name="many"):
+    """Deterministic instance with many short jobs (all ready at the start),
+    operations with one and with two eligible machines mixed, positive
+    durations - for fixed cases beyond the generated numbers of jobs."""
+    durations, machines = [], []
+    for j in range(n_jobs):
+        perm = _fixed_permutation(n_machines, j)
+        ln = 1 + (j % 3 == 0)
+        durations.append([1 + (5 * j + 2 * p) % 4 for p in range(ln)])
+        machines.append([[perm[p]] if (j + p) % 2 else [perm[p], perm[p + 1]] for p in range(ln)])
+    return {"durations": durations, "machines": machines, "name": name, "meta": {}, "ints": True, "family": "fixed_many_ready"}
